@@ -190,11 +190,17 @@ def fanin_close_stress(chk, tier):
     else:
         chk.nontrivial.add("fanin-close-stress:%d" % n)
 
+# RunTo / RunToRegex: the run set ends in the middle of the graph, more results than buffer slots on the cut connections
+RUNTO_CUTS = [("Z1", dict(n=5, buf=2), dict(mode="runto", targets=["a"])), ("Z3", dict(n=4, buf=1), dict(mode="runto", targets=["a", "b"])),
+              ("Z16", dict(n=5, buf=2), dict(mode="runto", targets=["a"])), ("Z2", dict(n=4, buf=1), dict(mode="runto", targets=["b"])),
+              ("Z2", dict(n=6, buf=2), dict(mode="runtoprocs", targets=["c"]))]
+
 @register("C04")
 def check_C04(tier):
     return run_flow_check("C04", tier, {"C04"}, post=lambda chk: (fanin_close_stress(chk, tier), empty_param_scenario(chk)),
         closed_cases=(THOROUGH_CLOSED if tier == "thorough" else QUICK_CLOSED) + PRE_CLOSED,
-        real_cases=REAL, gen=40 if tier == "thorough" else 10, nvar=8 if tier == "thorough" else 4,
+        real_cases=REAL + RUNTO_CUTS + [("ZCAT", dict(n=4, buf=2)), ("ZCAT", dict(n=3, buf=1, two=True))],
+        gen=40 if tier == "thorough" else 10, nvar=8 if tier == "thorough" else 4,
         weak_cases=[("Z2", dict(n=1), "SendFirstRemoteOnly", "C04_AtReturn")],
         rule="closed: every interleaving of each zoo instance (Flow.tla, Closed=TRUE); real: seeded jittered runs of zoo "
              "and generated acyclic graphs, traces validated by FlowTrace.tla and Monitor.tla, files/contents/execution "
